@@ -112,14 +112,23 @@ def _make_alg(kind, p):
     raise ValueError(kind)
 
 
-def _run(kind, data, fs, p, sel, ref_ind=None):
-    """returns dict(tables=(Fn, Xi, Phi) or None, modes=(Fn, Xi or None, Phi) or None)"""
+def _run(kind, data, fs, p, sel, ref_ind=None, view=False):
+    """returns dict(tables=(Fn, Xi, Phi) or None, modes=(Fn, Xi or None, Phi) or None)
+    view: the data are looked at first (time histories, channel statistics) -- read-only operations"""
     from pyoma2.setup import MultiSetup_PreGER, SingleSetup
 
     if kind.endswith("_MS"):
         setup = MultiSetup_PreGER(fs=fs, ref_ind=[list(r) for r in ref_ind], datasets=[d.copy() for d in data])
     else:
         setup = SingleSetup(data.copy(), fs=fs)
+        if view:
+            import matplotlib.pyplot as plt
+
+            try:
+                setup.plot_data()
+                setup.plot_ch_info(nxseg=min(256, data.shape[0] // 4))
+            finally:
+                plt.close("all")
     alg = _make_alg(kind, p)
     setup.add_algorithms(alg)
     setup.run_by_name("a")
@@ -307,8 +316,66 @@ def _global_order(labels, ref_ind):
     return order
 
 
+def _gain_unc_case(ctx, it):
+    """covariance-driven SSI WITH uncertainty bounds: the hard criterion on the frequency variance is part of the
+    identification, so the reported variances must not depend on the gain either.  If they do, a limit placed between the
+    two values gives a pole table that differs between the two runs: that run pair is the reported violation."""
+    from pyoma2.algorithms import SSIcov
+    from pyoma2.setup import SingleSetup
+
+    rng = ctx.rng
+    nch = rng.randint(2, 3)
+    fs = rng.choice([20.0, 50.0, 128.0])
+    y = _signal(ctx, nch, rng.randint(1500, 2500), fs, nmodes=rng.randint(1, 2))
+    c = 2.0 ** rng.choice([-20, -9, -4, 5, 11, 20])
+    br, ordmax, nb = rng.randint(4, 7), rng.randint(4, 6), rng.randint(6, 14)
+
+    def run(data, cov_max):
+        hc = dict(HC)
+        hc["cov_max"] = cov_max
+        alg = SSIcov(name="a", br=br, ordmax=ordmax, method="cov_mm", calc_unc=True, nb=nb, hc=hc)
+        ss = SingleSetup(data.copy(), fs=fs)
+        ss.add_algorithms(alg)
+        ss.run_by_name("a")
+        return np.array(alg.result.Fn_poles), np.array(alg.result.Fn_poles_cov)
+
+    inp = {"class": "SSIcov(calc_unc=True)", "transformation": "gain2", "fs": fs, "gain": c, "br": br, "ordmax": ordmax, "nb": nb, "case": f"seed{ctx.seed}#unc{it}"}
+    try:
+        F0, V0 = run(y, 1e300)
+        F1, V1 = run(y * c, 1e300)
+    except (np.linalg.LinAlgError, ValueError):
+        ctx.skipped += 1
+        return
+    ctx.oracle_cases += 1
+    ctx.count("cases_gain_uncertainty")
+    ctx.nontrivial.add(("SSIcovUnc", "gain2", nb))
+    both = ~np.isnan(V0) & ~np.isnan(V1) & (V0 > 0) & (V1 > 0)
+    if F0.shape != F1.shape or not both.any():
+        return
+    rel = np.where(both, np.abs(V1 - V0) / np.where(both, np.maximum(V0, V1), 1.0), 0.0)
+    r, o = np.unravel_index(int(np.argmax(rel)), rel.shape)
+    ctx.dist["margin_gain_variance_rel"] = max(ctx.dist.get("margin_gain_variance_rel", 0.0), float(rel[r, o]))
+    if rel[r, o] <= 1e-6:
+        return
+    thr = float(np.sqrt(V0[r, o] * V1[r, o]))
+    G0, _ = run(y, thr)
+    G1, _ = run(y * c, thr)
+    kept0, kept1 = ~np.isnan(G0[r, o]), ~np.isnan(G1[r, o])
+    if kept0 != kept1:
+        ctx.violation(
+            "SSIcovUnc:gain2:pole-set-not-invariant",
+            f"SSIcov(calc_unc=True): frequency variance of pole ({r},{o}) is {V0[r, o]:.6g} at gain 1 and {V1[r, o]:.6g} at gain {c:g}; with "
+            f"hc['cov_max'] = {thr:.6g} the pole is {'kept' if kept0 else 'removed'} at gain 1 and {'kept' if kept1 else 'removed'} at gain {c:g}",
+            inp | {"cov_max": thr, "data_seed": "see case"}, observed=[bool(kept0), bool(kept1)], expected="equal",
+        )
+
+
 def oracle(ctx, scale):
     rng = ctx.rng
+    for it in range(ctx.n(3, 20) * scale):
+        _gain_unc_case(ctx, it)
+        if ctx.violations:
+            return
     n = ctx.n(5, 25) * scale
     for it in range(n):
         for kind in SINGLE:
@@ -323,7 +390,11 @@ def oracle(ctx, scale):
             y2, fs2, p2, sel2, kf, rowmap, tinfo = _transform_single(ctx, y, fs, p, sel, tr)
             inp["t"] = tinfo
             try:
-                new = _run(kind, y2, fs2, p2, sel2)
+                view = rng.random() < 0.25
+                if view:
+                    inp["data_viewed_before_second_run"] = True
+                    ctx.count("single_data_viewed_first")
+                new = _run(kind, y2, fs2, p2, sel2, view=view)
             except Exception as e:
                 ctx.oracle_cases += 1
                 ctx.violation(f"{kind}:{tr}:transformed-run-fails", f"{kind}: run on {tr}-transformed data raises {type(e).__name__}: {str(e)[:100]} while the original run succeeds", inp)
